@@ -8,6 +8,7 @@ import (
 	"encoding/json"
 	"math/rand"
 	"sort"
+	"strings"
 )
 
 func keysOf[V any](m map[string]V) []string {
@@ -78,7 +79,7 @@ func randZipFV(r *rand.Rand) any {
 }
 
 func randLogFV(r *rand.Rand, tab *Tables) any {
-	fv := LogFV{Ts: one(r, rTimes), Obs: one(r, rTimes), Sev: one(r, tab.SevAll), Sevtext: one(r, []string{"st1", "st0"}),
+	fv := LogFV{Ts: one(r, rTimes), Obs: one(r, rTimes), Sev: one(r, append([]string{"sevout"}, tab.SevAll...)), Sevtext: one(r, []string{"st1", "st0"}),
 		Event: one(r, []string{"ev1", "ev0"}), Body: one(r, rBodies), Attrs: one(r, rLogAttrs),
 		Dropped: one(r, []string{"c0", "c0", "c1", "c2", "c3", "cmax32", "cbig"}),
 		Ids:     one(r, []string{"ids", "noids", "tidonly", "sidonly", "hibit"}), Flags: one(r, []string{"f1", "f0"})}
@@ -150,4 +151,81 @@ func randomBatch(r *rand.Rand, tab *Tables, sig string) []Item {
 		batch[i] = Item{R: one(r, res), S: one(r, scopes), ID: i + 1, FV: raw}
 	}
 	return batch
+}
+
+// ---------------------------------------------------------------- end-to-end programs (API level)
+
+var (
+	apiTimes = []string{"t1", "t2", "t3", "tpre", "tfar"}
+	apiAttrs = []string{"an", "ae", "a1", "a8", "a8b", "abound"} // 130 attributes would hit the default limit (C04)
+)
+
+func randSpanApi(r *rand.Rand) any {
+	a := SpanApi{Idc: one(r, rIdc), Name: one(r, rNames), Kind: one(r, kindNames), Code: one(r, codeNames), Msg: one(r, []string{"m1", "m2", "m0"}),
+		Start: one(r, apiTimes), End: one(r, apiTimes), Parent: one(r, []string{"local", "remote", "none"}), Ts: one(r, []string{"ts1", "ts0"}),
+		Attrs: one(r, apiAttrs), Events: []ApiEv{}, Links: []ApiLk{}}
+	for n := r.Intn(4); n > 0; n-- {
+		a.Events = append(a.Events, ApiEv{Name: one(r, []string{"e1", "e2", "e0"}), Time: one(r, apiTimes), Attrs: one(r, apiAttrs)})
+	}
+	for n := r.Intn(4); n > 0; n-- {
+		a.Links = append(a.Links, ApiLk{Idc: one(r, rIdc), N: one(r, []string{"k1", "k2"}), Attrs: one(r, apiAttrs),
+			Remote: one(r, []string{"t", "f"}), Ts: one(r, []string{"ts0", "ts1"})})
+	}
+	return a
+}
+
+func randLogApi(r *rand.Rand, tab *Tables) any {
+	a := LogApi{Ts: one(r, rTimes), Obs: one(r, append([]string{"tepoch"}, apiTimes...)), Sev: one(r, append([]string{"sevout"}, tab.SevAll...)),
+		Sevtext: one(r, []string{"st1", "st0"}), Event: one(r, []string{"ev1", "ev0"}), Body: one(r, rBodies), Attrs: one(r, rLogAttrs),
+		Ids: one(r, []string{"ids", "noids", "tidonly", "sidonly", "hibit"}), Flags: one(r, []string{"f1", "f0"})}
+	if a.Attrs == "labare" {
+		a.Sevtext = "st1"
+	}
+	return a
+}
+
+func randMetricApi(r *rand.Rand) any {
+	a := MetricApi{Kind: one(r, []string{"counter", "updown", "hist", "gauge", "ocounter", "oupdown", "ogauge"}), Num: one(r, []string{"int", "float"}),
+		Desc: one(r, []string{"d1", "d0"}), Unit: one(r, []string{"u1", "u0"}), View: "default", Temp: one(r, []string{"cumulative", "delta"}), Meas: []Meas{}}
+	if a.Kind == "hist" {
+		a.View = one(r, []string{"default", "expo", "bounds"})
+	}
+	das := []string{"dp0", "dp1", "dp2", "dp3", "dp4"}
+	if strings.HasPrefix(a.Kind, "o") { // an observable reports one value per attribute set
+		for _, da := range pickSome(r, das, r.Intn(5)) {
+			a.Meas = append(a.Meas, Meas{Da: da, V: r.Intn(16)})
+		}
+	} else {
+		for n := r.Intn(8); n > 0; n-- {
+			a.Meas = append(a.Meas, Meas{Da: one(r, das), V: r.Intn(16)})
+		}
+	}
+	return a
+}
+
+func randomProgram(r *rand.Rand, tab *Tables, sig string) []Item {
+	n := 1 + r.Intn(12)
+	if r.Intn(4) == 0 {
+		n = 13 + r.Intn(28)
+	}
+	res := pickSome(r, keysOf(tab.Res), 1+r.Intn(5))
+	scopes := pickSome(r, keysOf(tab.Scopes), 1+r.Intn(6))
+	prog := make([]Item, n)
+	for i := range prog {
+		var fv any
+		switch sig {
+		case "trace":
+			fv = randSpanApi(r)
+		case "log":
+			fv = randLogApi(r, tab)
+		case "metric":
+			fv = randMetricApi(r)
+		}
+		raw, err := json.Marshal(fv)
+		if err != nil {
+			harnessBug("marshal fv: %v", err)
+		}
+		prog[i] = Item{R: one(r, res), S: one(r, scopes), ID: i + 1, FV: raw}
+	}
+	return prog
 }
